@@ -447,3 +447,86 @@ def RenCallOK (x y : String) (ti : TypeInfo) (p : Program) : Bool :=
   && !(ti.ins.map (·.1)).contains y && !(ti.outs.map (·.1)).contains y
 
 end Martian.Refactor
+
+namespace Martian.Refactor
+
+/-! ### renameOutput -/
+
+def renOutG (x a b : String) (c : String) (path : List String) : String × List String :=
+  match path with
+  | h :: t => if c = x ∧ h = a then (c, b :: t) else (c, h :: t)
+  | [] => (c, [])
+
+/-- references to output `a` of a stage of callable `x` now name `b` -/
+def renOutR (x a b : String) : RExp → RExp := mapSref (renOutG x a b)
+
+/-- rename the first entry with key `a` of an entry list -/
+def renKeyR (a b : String) : RExp → RExp
+  | .cons k h t => if k = a then .cons b h t else .cons k h (renKeyR a b t)
+  | .lit s => .lit s
+  | .sref fq c p => .sref fq c p
+  | .split e => .split e
+  | .arr es => .arr es
+  | .map st es => .map st es
+  | .nil => .nil
+
+def renTopKey (a b : String) : RExp → RExp
+  | .map true es => .map true (renKeyR a b es)
+  | e => e
+
+/-- the node after output `a` of callable `x` was renamed to `b`: references to
+that output of a stage of `x` are renamed everywhere; a node of pipeline `x`
+lists its resolved output under the new key -/
+def renNodeOut (x a b : String) (n : Node) : Node :=
+  { fqid := n.fqid, callable := n.callable, isPipe := n.isPipe,
+    inputs := mapVals (renOutR x a b) n.inputs,
+    outputs := if n.callable = x ∧ n.isPipe = true then renTopKey a b (renOutR x a b n.outputs)
+               else renOutR x a b n.outputs,
+    retained := n.retained.map (renOutR x a b) }
+
+def callRefTo (ids : List String) (r : Ref) : Bool := r.kind == RefKind.call && ids.contains r.id
+
+/-- all references of a pipeline that the graph resolution follows -/
+def graphRefs (c : Callable) : List Ref :=
+  c.calls.flatMap (fun k => k.binds.flatMap (fun bd => refs bd.exp))
+  ++ c.ret.flatMap (fun bd => refs bd.exp) ++ c.retain
+
+def pipeOKOut (x b : String) (p : Program) (c : Callable) : Bool :=
+  (c.isPipe || c.calls.isEmpty)
+  && decide (callIds c).Nodup
+  && c.calls.all (fun k => noStar k.binds)
+  && noStar c.ret
+  && c.calls.all (fun k => (p.find? k.decId).isSome)
+  && (graphRefs c).all (fun r => r.kind != RefKind.call || (callIds c).contains r.id)
+  && (c.name != x ||
+       (c.calls.all (fun k => k.decId != x) && !(c.ret.map (·.name)).contains b
+        && decide (c.ret.map (·.name)).Nodup))
+  && (graphRefs c).all (fun r => !callRefTo (callIdsOf x c) r
+        || (match r.path with | h :: _ => h != b | [] => false))
+
+/-- **hypothesis of `rename_output_graph`** (decidable): `b` is fresh (not an
+output of `x`, referenced on no call of `x`); no call of `x` is used as a whole
+(`= CALL`) and `x` is not used as a type (known finding KF2); no wildcard
+bindings (KF1); distinct call ids; references name existing calls. -/
+def RenOutOK (x a b : String) (ti : TypeInfo) (p : Program) : Bool :=
+  x != "" && b != "*" && a != b
+  && (p.find? x).isSome
+  && p.callables.all (pipeOKOut x b p)
+  && (match p.top with
+      | some t => pipeOKOut x b p (topPipe t)
+          && t.binds.all (fun bd => (refs bd.exp).isEmpty) && t.mods.all (fun bd => (refs bd.exp).isEmpty)
+      | none => true)
+  && typesAvoid x ti
+  && !((outsOf ti x).map (·.1)).contains b
+
+/-- no stage of `x` occurs as a whole value -/
+def cleanR (x : String) : RExp → Bool
+  | .lit _ => true
+  | .sref _ c path => c != x || !path.isEmpty
+  | .split e => cleanR x e
+  | .arr es => cleanR x es
+  | .map _ es => cleanR x es
+  | .nil => true
+  | .cons _ h t => cleanR x h && cleanR x t
+
+end Martian.Refactor
